@@ -1159,7 +1159,7 @@ Proof.
   { destruct (h_size h <? 0); [discriminate|].
     destruct (fromtarfile va f fuel _) as [t' tl' o'| | | | |] eqn:Er; try discriminate.
     intros [= _ _ <-]. destruct (IH _ _ _ _ Er) as [_ Ho].
-    pose proof (blen_nonneg (rd f (tell + BLOCK) (block (h_size h)))). split; [exact Hfull|unfold BLOCK in *; lia]. }
+    pose proof (blen_nonneg (rd f (tell + BLOCK) (Z.min (block (h_size h)) (blen f)))). split; [exact Hfull|unfold BLOCK in *; lia]. }
   destruct (mem (h_type h) _); [discriminate|].
   destruct ((h_size h <? 0) && has_data (h_type h)) eqn:Eneg; [discriminate|].
   intros [= _ _ <-]. split; [exact Hfull|].
@@ -1178,8 +1178,8 @@ Proof.
   destruct (skip_cond va h); [discriminate|].
   destruct ((h_type h =? GNUTYPE_LONGNAME) || (h_type h =? GNUTYPE_LONGLINK)).
   { destruct (h_size h <? 0); [discriminate|].
-    pose proof (blen_nonneg (rd f (tell + BLOCK) (block (h_size h)))) as Hb.
-    specialize (IH (tell + BLOCK + blen (rd f (tell + BLOCK) (block (h_size h))))).
+    pose proof (blen_nonneg (rd f (tell + BLOCK) (Z.min (block (h_size h)) (blen f)))) as Hb.
+    specialize (IH (tell + BLOCK + blen (rd f (tell + BLOCK) (Z.min (block (h_size h)) (blen f))))).
     destruct (fromtarfile va f fuel _) eqn:Er; try discriminate.
     exfalso. apply IH; [|reflexivity]. unfold BLOCK in *. lia. }
   destruct (mem (h_type h) _); [discriminate|].
@@ -1316,8 +1316,13 @@ Proof.
     (* the record's blocks *)
     assert (Hblk : block (a_size r) = zlen (a_data r)).
     { rewrite block_eq by lia. symmetry. apply (wfr_data_len r Hr). }
-    assert (Hbuf : rd (pre ++ member_bytes r ++ render_item next ++ post) (zlen pre + 512) (block (a_size r)) = a_data r).
-    { unfold rd, member_bytes. rewrite Hblk, <- (app_assoc (header r)), (app_assoc pre (header r)).
+    assert (Hbuf : rd (pre ++ member_bytes r ++ render_item next ++ post) (zlen pre + 512)
+                      (Z.min (block (a_size r)) (blen (pre ++ member_bytes r ++ render_item next ++ post))) = a_data r).
+    { rewrite Z.min_l.
+      2:{ change blen with zlen. rewrite Hblk, !zlen_app. unfold member_bytes. rewrite zlen_app.
+          pose proof (zlen_nonneg pre). pose proof (zlen_nonneg (header r)).
+          pose proof (zlen_nonneg (render_item next)). pose proof (zlen_nonneg post). lia. }
+      unfold rd, member_bytes. rewrite Hblk, <- (app_assoc (header r)), (app_assoc pre (header r)).
       replace (zlen pre + 512) with (zlen (pre ++ header r)) by (rewrite zlen_app, (header_len r Hh); reflexivity).
       apply slice_app_exact. }
     rewrite Hbuf. change (blen (a_data r)) with (zlen (a_data r)).
